@@ -121,6 +121,10 @@ func (c *Ctl) point(e Event, release func()) {
 	release()
 }
 
+// ReleaseOnEOF asks the container init to let every parked point go once this end of the socket is gone (i.e. once the
+// process that holds the controller has died): "the init is held at a point" then lasts exactly as long as the controller.
+func (c *Ctl) ReleaseOnEOF() { fmt.Fprintf(c.ours, "EOF-RELEASES\n") }
+
 // HostHook is the function to install as container.VerifHook.
 func (c *Ctl) HostHook(id, arg int) {
 	ch := make(chan struct{})
